@@ -121,6 +121,7 @@ let rec show_dval = function
   | Pool.DBool b -> if b then "b1" else "b0"
   | Pool.DStr s -> "s" ^ hex_of_bytes s
   | Pool.DList vs -> "[" ^ String.concat "," (Stdlib.List.map show_dval vs) ^ "]"
+  | Pool.DRefTo v -> "&" ^ show_dval v
   | Pool.DPanic -> "PANIC"
 
 let parse_dop (op : string) =
